@@ -124,6 +124,30 @@ propagated state returns to the state at p = 0 -/
 theorem clusterMove_consistent (h : ClusterMove fr b a) (hb : Consistent b) : Consistent a :=
   h.consistent hb
 
+/-- what "the flipped set is closed along world lines" means leg by leg: the flip indicator `D`
+(the mask `before xor after`) has the same value on the output leg of every op and on the input leg
+of the next op on that variable; the next op is looked for in the rest of the string and then,
+through the time boundary, from the start of the string again (so the last op on a variable links
+to the first one, and a lone op to itself). -/
+theorem clusterMove_link (h : ClusterMove fr b a) (pre t : Slots) (m : Op)
+    (hm : maskSlots b.slots a.slots = pre ++ some m :: t) (hn : m.vars.Nodup) (v : Nat)
+    (hv : v ∈ m.vars) (x : Bool) (hx : firstIn v (t ++ maskSlots b.slots a.slots) = some x) :
+    m.legOut v = some x := h.link pre t m hm hn v hv x hx
+
+/-- the state at p = 0 is flipped iff the link crossing the time boundary (= the input leg of the
+first op on the variable) is flipped -/
+theorem clusterMove_boundary_state (h : ClusterMove fr b a) (v : Nat) (x : Bool)
+    (hx : firstIn v (maskSlots b.slots a.slots) = some x) :
+    (xorB b.state a.state)[v]? = some x := h.boundary_state v x hx
+
+/-- variables that carry no op keep their value -/
+theorem clusterMove_idle (h : ClusterMove fr b a) (v : Nat)
+    (hv : varHasOp (skeleton b.slots) v = false) : a.state[v]? = b.state[v]? := h.idle v hv
+
+/-- all draws rejected: leaving a structurally valid configuration untouched is a cluster move -/
+theorem clusterMove_refl (fr : SkOp → Bool) (b : Config) (h : ShapeOk b) : ClusterMove fr b b :=
+  ClusterMove.refl fr h
+
 /-- the tag rule of `edit_in_out` keeps tags canonical (`Diagonal` iff inputs = outputs) -/
 theorem clusterMove_tags (ht : PairAll (fun ob oa => tagRuleB ob oa = true) b.slots a.slots)
     (hb : TagCanon b.slots) : TagCanon a.slots := tagRule_canon ht hb
